@@ -16,12 +16,17 @@ from vlib import Rng
 
 U64 = (1 << 64) - 1
 U32 = (1 << 32) - 1
-ST = {"sys": 7, "thr": 3, "mod": 4, "mem": 5, "m64": 9, "exc": 6, "tnm": 24, "unl": 14, "mi": 16, "misc": 15}
+ST = {"sys": 7, "thr": 3, "mod": 4, "mem": 5, "m64": 9, "exc": 6, "tnm": 24, "unl": 14, "mi": 16, "misc": 15,
+      "bp": 0x47670001, "asr": 0x47670002, "ti": 17, "lxcpu": 0x47670003, "lxstatus": 0x47670004, "lxlsb": 0x47670005,
+      "lxenv": 0x47670007, "lxmaps": 0x47670009, "lxlim": 0x4d7a0003}
 CV_PDB70, CV_PDB20, CV_ELF = 0x53445352, 0x3031424e, 0x4270454c
 VS_SIG, VS_VER = 0xfeef04bd, 0x00010000
 MISC_NINTS = {1: 6, 2: 11, 3: 15 + (1 + 32 + 8 + 1 + 32 + 8 + 1), 4: 15 + 83 + 300, 5: 15 + 83 + 300 + 3 + 128 + 1}
 MISC_SIGNED = {3: {15, 15 + 41, 15 + 82}}
-SECTIONS = ["hdr", "sys", "thr", "mod", "mem", "memq", "m64", "m64q", "exc", "tnm", "unl", "mi", "misc"]
+SECTIONS = ["hdr", "sys", "thr", "mod", "mem", "memq", "m64", "m64q", "exc", "tnm", "unl", "mi", "misc",
+            "bp", "asr", "ti", "lxcpu", "lxstatus", "lxlsb", "lxenv", "lxmaps", "lxlim"]
+RAW_KEYS = ["lxcpu", "lxstatus", "lxlsb", "lxenv", "lxmaps", "lxlim"]
+KV_SEP = {"lxcpu": b":", "lxstatus": b":", "lxlsb": b"=", "lxenv": b"="}
 
 
 # ----------------------------------------------------------------------------- blobs / tokens
@@ -98,6 +103,11 @@ def model_tokens(m):
     opt("unl", lst(lambda x: t.extend([x["base"], x["size"], x["ck"], x["time"]] + str_toks(x["name"]))))
     opt("mi", lst(lambda x: t.extend(x)))
     opt("misc", lambda x: t.extend([x[0], len(x[1])] + x[1]))
+    opt("bp", lambda x: t.extend(x))
+    opt("asr", lambda x: t.extend(x))
+    opt("ti", lst(lambda x: t.extend(x)))
+    for k in RAW_KEYS:
+        opt(k, lambda x: t.extend(x.toks()))
     return t
 
 
@@ -185,6 +195,11 @@ def parse_model(toks):
     m["unl"] = opt(lst(unl))
     m["mi"] = opt(lst(lambda: r.ints(9)))
     m["misc"] = opt(lambda: (r.int(), r.ints(r.int())))
+    m["bp"] = opt(lambda: r.ints(3))
+    m["asr"] = opt(lambda: r.ints(386))
+    m["ti"] = opt(lst(lambda: r.ints(10)))
+    for k in RAW_KEYS:
+        m[k] = opt(r.blob)
     return m
 
 
@@ -374,7 +389,17 @@ CTX_ARM = [4] + [4] * 16 + [4] + [8] + [8] * 32 + [4] * 8
 CTX_ARM64 = [4, 4] + [8] * 31 + [8, 8] + [16] * 32 + [4, 4] + [4] * 8 + [8] * 8 + [4] * 2 + [8] * 2
 CTX_CPU_MASK = 0xffffff00
 CTX_ALL = 0x80000 | 0xc0 | 0x40 | 0x20000 | 0x100000 | 0x40000000 | 0x400000 | 0x80000000 | 0x40000 | 0x80000 | 0x20000000 | 0x1000000 | 0x10000000 | 0x10000
-CTX = {0: (CTX_X86, 0, 0x10000), 10: (CTX_X86, 0, 0x10000), 9: (CTX_AMD64, 6, 0x100000), 5: (CTX_ARM, 0, 0x40000000), 12: (CTX_ARM64, 0, 0x400000)}
+# Breakpad's minidump_cpu_{arm64,mips,ppc,ppc64,sparc}.h
+CTX_ARM64_OLD = [8] + [8] * 31 + [8, 8] + [4, 4, 4] + [16] * 32
+CTX_MIPS = [4, 4] + [8] * 32 + [8, 8] + [4] * 3 + [4] * 3 + [4, 4] + [8, 8] + [4, 4] + ([8] * 32 + [4, 4])
+_PPC_FLOAT = [8] * 32 + [4, 4]
+_PPC_VECTOR = [16] * 32 + [16] + [4] * 4 + [4] + [4] * 7
+CTX_PPC = [4, 4, 4] + [4] * 32 + [4] * 6 + _PPC_FLOAT + _PPC_VECTOR
+CTX_PPC64 = [8, 8, 8] + [8] * 32 + [8] * 5 + _PPC_FLOAT + _PPC_VECTOR
+CTX_SPARC = [4, 4] + [8] * 32 + [8] * 6 + ([8] * 32 + [8, 8])
+CTX = {0: (CTX_X86, 0, 0x10000), 10: (CTX_X86, 0, 0x10000), 9: (CTX_AMD64, 6, 0x100000), 5: (CTX_ARM, 0, 0x40000000), 12: (CTX_ARM64, 0, 0x400000),
+       0x8003: (CTX_ARM64_OLD, 0, 0x80000000), 1: (CTX_MIPS, 0, 0x40000), 3: (CTX_PPC, 0, 0x20000000), 0x8002: (CTX_PPC64, 0, 0x1000000),
+       0x8001: (CTX_SPARC, 0, 0x10000000)}
 
 
 def ctx_size(arch):
@@ -402,7 +427,7 @@ def ctx_expect(m, blob):
             out += [v >> 64, v & U64]
         else:
             out.append(v)
-    if (out[idx] & CTX_CPU_MASK & CTX_ALL) != const:
+    if (out[idx] & 0xffffffff & CTX_CPU_MASK & CTX_ALL) != const:
         return [-1]
     return [1] + out
 
@@ -490,7 +515,42 @@ def expected(m):
                    lambda l: [[x["base"], x["size"], x["ck"], x["time"]] + str_toks(x["name"]) + chars("%08x%x" % (x["time"], x["size"])) for x in l])
     E["mi"] = sec("mi", lambda l: True, lambda l: [list(x) for x in l])
     E["misc"] = sec("misc", lambda x: True, lambda x: [[x[0]] + list(x[1])])
+    E["bp"] = sec("bp", lambda x: True, lambda x: [[x[1] if x[0] & 1 else -1, x[2] if x[0] & 2 else -1]])
+
+    def zstr(u):
+        u = list(u)
+        if 0 in u:
+            u = u[:u.index(0)]
+        return [len(u)] + u if valid_utf16(u) else [-1]
+
+    E["asr"] = sec("asr", lambda x: True, lambda x: [list(x) + zstr(x[0:128]) + zstr(x[128:256]) + zstr(x[256:384])])
+    E["ti"] = sec("ti", lambda l: True, lambda l: [list(x) for x in l])
+    for k in RAW_KEYS:
+        E[k] = sec(k, lambda b: True, (lambda kk: lambda b: [[len(b.b)] + list(b.b)] + (kv_expect(b.b, KV_SEP[kk]) if kk in KV_SEP else []))(k))
     return E
+
+
+WS = b" \t\n\x0c\r"
+
+
+def strip_quotes(b):
+    b = b.strip(WS)
+    if len(b) >= 2 and b[:1] == b'"' and b[-1:] == b'"':
+        return b[1:-1]
+    return b
+
+
+def kv_expect(data, sep):
+    """the documented reading of /proc-style text: one `key<sep>value` per line, both sides trimmed of
+    blanks and of one pair of surrounding double quotes; lines without the separator are skipped"""
+    out = []
+    for line in data.split(b"\n"):
+        k, s_, v = line.partition(sep)
+        if not s_:
+            continue
+        k, v = strip_quotes(k), strip_quotes(v)
+        out.append([len(k)] + list(k) + [len(v)] + list(v))
+    return out
 
 
 def sys_wf(s):
@@ -591,21 +651,37 @@ class Gen:
         return r.below(1 << bits)
 
     def units(self):
+        """a UTF-16 name.  Regularly: only units xx00 (look like ASCII in the other byte order), only 00xx
+        (ASCII), only xxxx, surrogate pairs, mixtures; sometimes an unpaired surrogate"""
         r = self.r
-        st = r.below(8)
-        n = r.choice([0, 0, 1, 2, 3, 5, 8, 13, 40]) if r.chance(1, 2) else r.below(12)
+        st = r.below(10)
+        n = r.choice([0, 1, 1, 2, 3, 5, 8, 13, 40]) if r.chance(1, 2) else r.range(1, 12)
         out = []
-        for _ in range(n):
-            k = r.below(10)
-            if k < 5:
-                out.append(r.range(0x20, 0x7e))
-            elif k < 7:
-                out.append(r.choice([0, 0xff, 0x100, 0xfffe, 0xffff, 0xd7ff, 0xe000, 0x2028, 0x0a]))
-            elif k < 9:
+        if st == 0:       # every unit xx00 with xx < 0x80: U+0100, U+4E00, U+7F00 ...
+            out = [r.range(1, 0x7f) << 8 for _ in range(max(n, 1))]
+        elif st == 1:     # every unit xx00, any xx outside the surrogate range
+            out = [r.choice([r.range(1, 0xd7), r.range(0xe0, 0xff)]) << 8 for _ in range(max(n, 1))]
+        elif st == 2:     # plain ASCII 00xx
+            out = [r.range(0x20, 0x7e) for _ in range(n)]
+        elif st == 3:     # both bytes non-zero
+            out = [(r.choice([r.range(1, 0xd7), r.range(0xe0, 0xff)]) << 8) | r.range(1, 0xff) for _ in range(n)]
+        elif st == 4:     # surrogate pairs only
+            for _ in range(max(1, n // 2)):
                 out += [r.range(0xd800, 0xdbff), r.range(0xdc00, 0xdfff)]
-            else:
-                out.append(r.range(0, 0xffff))
-        if st == 0 and out:       # plant an unpaired surrogate
+        else:
+            for _ in range(n):
+                k = r.below(12)
+                if k < 4:
+                    out.append(r.range(0x20, 0x7e))
+                elif k < 6:
+                    out.append(r.range(1, 0x7f) << 8)
+                elif k < 7:
+                    out.append(r.choice([0, 0xff, 0x100, 0xfffe, 0xffff, 0xd7ff, 0xe000, 0x2028, 0x0a, 0x4e00, 0x7f00, 0x8000]))
+                elif k < 9:
+                    out += [r.range(0xd800, 0xdbff), r.range(0xdc00, 0xdfff)]
+                else:
+                    out.append(r.choice([r.range(0, 0xd7ff), r.range(0xe000, 0xffff)]))
+        if r.chance(1, 10) and out:       # plant an unpaired surrogate
             out[r.below(len(out))] = r.choice([0xd800, 0xdbff, 0xdc00, 0xdfff])
         return out
 
@@ -636,14 +712,17 @@ class Gen:
         if st == 0:
             flags = r.choice([0, 0x10000, 0x100000, 0x400000, 0x40000000, 0x80000000, const | 0x20000, r.below(1 << 32)])
         off = sum(widths[:idx])
-        b[off:off + 4] = flags.to_bytes(4, "little")      # patched to the dump's byte order in model()
+        fw = widths[idx]
+        if fw == 8 and r.chance(1, 4):
+            flags |= r.below(1 << 32) << 32               # the upper half of a u64 flag word is ignored
+        b[off:off + fw] = flags.to_bytes(fw, "little")    # stored in the dump's byte order by with_endian()
         if st == 1:
             b = b[:r.below(size)]
         elif st == 2:
             b += bytes(r.below(64))
         budget[0] -= len(b)
         bl = Blob(b=bytes(b))
-        bl.flags_at = off if len(b) >= off + 4 else None
+        bl.flags_at = (off, fw) if len(b) >= off + fw else None
         return bl
 
     def addr(self):
@@ -746,7 +825,7 @@ class Gen:
 
         if present["sys"]:
             plat = r.choice([2, 3, 0x8101, 0x8102, 0x8201, 0x8203, 0x8202, 1, 0, 0x8000, self.u(32)])
-            m["sys"] = {"ints": [r.choice([0, 9, 9, 5, 12, 12, 0, 3, 0x8001, 0x8003, 1, 10, self.u(16)]), self.u(16), self.u(16), self.u(8), self.u(8),
+            m["sys"] = {"ints": [r.choice([0, 9, 9, 5, 12, 12, 0, 3, 0x8001, 0x8002, 0x8003, 1, 10, 0x8004, self.u(16)]), self.u(16), self.u(16), self.u(8), self.u(8),
                                  self.u(32), self.u(32), self.u(32), plat, self.u(16), self.u(16)],
                         "cpu": [r.below(256) for _ in range(24)], "csd": units() if (wf or r.chance(5, 6)) else None}
         regions = None
@@ -822,7 +901,65 @@ class Gen:
                 else:
                     ints.append(self.u(32))
             m["misc"] = (k, ints)
+        if r.chance(1, 3):
+            m["bp"] = [r.choice([0, 1, 2, 3, 3, self.u(32)]), self.u(32), self.u(32)]
+        if r.chance(1, 4):
+            def fixed():
+                u = self.units()[:128]
+                st = r.below(4)
+                if st == 0:
+                    return (u + [0] * 128)[:128]
+                if st == 1:
+                    return (u + [0] + [self.u(16) for _ in range(128)])[:128]
+                return (u + [self.u(16) if st == 2 else 0x41 for _ in range(128)])[:128]
+            m["asr"] = fixed() + fixed() + fixed() + [self.u(32), self.u(32)]
+        if r.chance(1, 3):
+            m["ti"] = [[self.u(32), self.u(32), self.u(32), self.u(32), self.u(64), self.u(64), self.u(64), self.u(64), self.u(64), self.u(64)]
+                       for _ in range(self.count())]
+        for k in RAW_KEYS:
+            if r.chance(1, 4):
+                m[k] = self.text(KV_SEP.get(k, b":"))
         return m
+
+    def text(self, sep):
+        """/proc-style text: key/value lines with blanks, quotes, missing separators, odd bytes"""
+        r = self.r
+        st = r.below(8)
+        if st == 0:
+            return Blob(b=b"")
+        if st == 1:
+            return Blob(b=bytes(r.below(256) for _ in range(r.below(40))))
+        lines = []
+        for _ in range(r.below(7)):
+            def word():
+                w = bytes(r.choice(b"abcXYZ019_ ./-") for _ in range(r.below(8)))
+                q = r.below(8)
+                if q == 0:
+                    w = b'"' + w + b'"'
+                elif q == 1:
+                    w = b'"' + w
+                elif q == 2:
+                    w = r.choice([b" ", b"\t", b"  ", b"\r", b"\x0c", b"\x0b"]) + w + r.choice([b" ", b"\t", b"\r"])
+                elif q == 3:
+                    w = b' "' + w + b'" '
+                elif q == 4:
+                    w = b'"'
+                return w
+            k = r.below(10)
+            if k == 0:
+                lines.append(word())
+            elif k == 1:
+                lines.append(b"")
+            elif k == 2:
+                lines.append(word() + sep + word() + sep + word())
+            else:
+                lines.append(word() + sep + word())
+        b = b"\n".join(lines)
+        if r.chance(1, 2):
+            b += b"\n"
+        if r.chance(1, 8):
+            b += b"\x00"
+        return Blob(b=b)
 
 
 def with_endian(m, en):
@@ -835,7 +972,8 @@ def with_endian(m, en):
         if en == 0 or off is None:
             return bl
         b = bytearray(bl.b)
-        b[off:off + 4] = bytes(reversed(b[off:off + 4]))
+        off, fw = off
+        b[off:off + fw] = bytes(reversed(b[off:off + fw]))
         nb = Blob(b=bytes(b))
         return nb
 
@@ -947,7 +1085,7 @@ class C02(PropBase):
                     elif st == 2 and ents:     # same type, empty
                         extra.append((rng.choice(ents)[0], 0, 0))
                     else:                      # unrelated type
-                        extra.append((rng.choice([0, 0, 8, 10, 0x47670009, 0x4350ffff, 0xffff]), rng.below(64), rng.below(len(h) // 2 + 1)))
+                        extra.append((rng.choice([0, 0, 8, 10, 0x47670006, 0x47670008, 0x4350ffff, 0xffff]), rng.below(64), rng.below(len(h) // 2 + 1)))
                 m["extra"] = extra
                 dist["with_duplicate_directory_entries"] += 1
         toks = []
